@@ -324,6 +324,16 @@ impl KeyKeeperSharedState {
         self.set_key(None).await
     }
 
+    /// Get the guid and the value of the current key from one actor message,
+    /// so that the two always belong to the same key even while the key is being replaced or cleared.
+    pub async fn get_current_key_guid_and_value(&self) -> Result<Option<(String, String)>> {
+        match self.get_key().await {
+            Ok(Some(k)) => Ok(Some((k.guid, k.key))),
+            Ok(None) => Ok(None),
+            Err(e) => Err(e),
+        }
+    }
+
     pub async fn get_current_key_value(&self) -> Result<Option<String>> {
         match self.get_key().await {
             Ok(Some(k)) => Ok(Some(k.key)),
